@@ -104,6 +104,26 @@ func init() {
 		c.elems[0] = &StructVal{f: f}
 		return TupleVal{Pointer{cell: c}, nilIface}
 	})
+	// uuid.NewV5(ns, seed).String(): an injective-looking uninterpreted function of the seed
+	reg("github.com/satori/go.uuid.FromStringOrNil", func(m *Machine, fn *ssa.Function, a []Value) Value {
+		return m.zero(fn.Signature.Results().At(0).Type())
+	})
+	reg("github.com/satori/go.uuid.NewV5", func(m *Machine, fn *ssa.Function, a []Value) Value {
+		ut := fn.Signature.Results().At(0).Type()
+		arr := m.zero(ut).(*ArrayVal)
+		e := append([]Value{}, arr.e...)
+		e[0] = &Handle{kind: "uuidseed", obj: a[1].(*Term)}
+		return &ArrayVal{e: e}
+	})
+	reg("(github.com/satori/go.uuid.UUID).String", func(m *Machine, fn *ssa.Function, a []Value) Value {
+		arr := a[0].(*ArrayVal)
+		if h, ok := arr.e[0].(*Handle); ok && h.kind == "uuidseed" {
+			u := m.in.UF("uuidv5", SString, h.obj.(*Term))
+			m.addPC(m.in.Eq(m.in.StrLen(u), m.in.I64(36)))
+			return u
+		}
+		return m.in.Str("00000000-0000-0000-0000-000000000000")
+	})
 	reg("github.com/dvsekhvalnov/jose2go/base64url.Encode", func(m *Machine, fn *ssa.Function, a []Value) Value {
 		b := m.toBytes(a[0])
 		if len(b.segs) == 1 && b.segs[0].k == SegTok {
